@@ -10,11 +10,12 @@ func vBytesEq(a, b []byte) bool {
 	if len(a) != len(b) {
 		return false
 	}
-	ok := true
+	// no short-circuit: one term, not one branch per byte
+	var diff byte
 	for i := range a {
-		ok = ok && a[i] == b[i]
+		diff |= a[i] ^ b[i]
 	}
-	return ok
+	return diff == 0
 }
 
 func vCopy(b []byte) []byte {
